@@ -15,7 +15,7 @@ ID = 'C08'
 LEVEL = 'fault_enumeration'
 crash_is_violation = False
 query_crash_is_violation = True      # a query or property that raises while the scheduler reads it: 'it never raises'
-QUICK_RUNS = 1200
+QUICK_RUNS = 2000
 THOROUGH_RUNS = 40000
 QUICK_BUDGET = 110
 THOROUGH_BUDGET = 1500
@@ -33,14 +33,18 @@ RULE = ('one run = one simulated hand (all variants, automation subsets, modes) 
         'rng_flip - in half of the attacks the shuffle seam is re-keyed between the query, the verifier and the operation of '
         'each request, so an answer that depends on how a replenished deck happens to be shuffled shows as a disagreement. The '
         'no-operation counts as an operation: can_no_operate/verify_no_operation/no_operate must agree and the operation must add '
-        'exactly one NoOperation record and change nothing else')
+        'exactly one NoOperation record and change nothing else. One run in 8 sits at a deck-exhausting table (6-8 handed stud and draw '
+        'games, as in C06) and a state whose deck cannot cover the deal that is due is always attacked, with the request class '
+        '"all of the deck plus cards of the reserve"; 3 runs in 16 of the tables with antes are forced-bet all-in tables (stacks no '
+        'larger than the ante, so the first betting round never opens) and most of their states are attacked')
 ASSUMPTIONS = [
+    'capacity rule (as C06/C07): tables whose card demand exceeds the whole deck are not seated',
     'only documented argument types; player indices stay within 0..n-1',
     'unknown cards ("??") are requested only where nothing has to read them (burns, face-down hole cards): dealing them '
     'as up-cards or board cards leaves the precondition of every showdown property (DESIGN.md C08 scope bound)',
     'accepted requests other than the scheduler\'s own step are fired at a deep copy; copy fidelity is C15\'s business',
 ]
-BIAS = dict(custom_num=1, max_players=6, chips=('int', 'int', 'fraction'))
+BIAS = dict(custom_num=1, max_players=6, chips=('int', 'int', 'fraction'), forced_allin_num=3)
 
 OPS = {
     'post_ante': ('can_post_ante', 'verify_ante_posting'),
@@ -117,6 +121,18 @@ def requests(world):
             got.append(pool.pop(ch.pick('adv.card', len(pool))))
         return got
 
+    reserve = sorted((c for c in list(st.burn_cards) + list(st.mucked_cards) + [c for d in st.discarded_cards for c in d]
+                      if not c.unknown_status), key=repr)
+    deck_known = sorted((c for c in st.deck_cards if not c.unknown_status), key=repr)
+
+    def deck_plus_reserve(k):
+        """The deck is short of k cards: name all of it plus cards of the reserve (burns, muck, discards), which the
+        documentation makes dealable exactly then."""
+        short = k - len(st.deck_cards)
+        if short <= 0 or len(deck_known) != len(st.deck_cards) or len(reserve) < short:
+            return None
+        return cards_str(deck_known + some(reserve, short))
+
     one = some(dealable, 1)
     burn_args = [((), 'default')]
     if one:
@@ -148,6 +164,9 @@ def requests(world):
         over = some(dealable, k + 1)
         if len(over) == k + 1:
             variants.append((cards_str(over), 'cards_over'))
+        dpr = deck_plus_reserve(k)
+        if dpr:
+            variants.append((dpr, 'cards_deck_plus_reserve'))
         if in_play:
             variants.append((cards_str(some(in_play, 1)), 'in_play'))
         variants.append((bad, 'malformed'))
@@ -171,6 +190,9 @@ def requests(world):
     over = some(dealable, bc + 1)
     if len(over) == bc + 1:
         variants.append((cards_str(over), 'cards_over'))
+    dpr = deck_plus_reserve(bc)
+    if dpr:
+        variants.append((dpr, 'cards_deck_plus_reserve'))
     if in_play:
         variants.append((cards_str(some(in_play, 1)), 'in_play'))
     variants.append((bad, 'malformed'))
@@ -222,6 +244,14 @@ def phase_of(world):
     return world.enabled_phase() or ('over' if not world.state.status else 'none')
 
 
+def quick_print(st):
+    """Cheap fingerprint (the full snapshot follows after the verifier)."""
+    return (len(st.operations), st.status, st.street_index, tuple(st.stacks), tuple(st.bets), len(st.deck_cards),
+            len(st.burn_cards), len(st.mucked_cards), tuple(map(len, st.hole_cards)), tuple(map(len, st.board_cards)),
+            tuple(st.statuses), tuple(st.actor_indices), st.opener_index, st.bring_in_status,
+            st.completion_betting_or_raising_count, tuple(st.payoffs))
+
+
 class Adversary:
     def __init__(self, world, ctx):
         self.world = world
@@ -239,6 +269,10 @@ class Adversary:
         # shuffle seam is re-keyed in between), so an answer that depends on the order in which a replenished deck
         # happens to come out shows as a disagreement instead of being masked by the deterministic seam
         self.flip = world.ch.chance('adv.rng_flip', 1, 2)
+        # one full picture of the state per attack: every request is verified to leave it unchanged, so it stays valid
+        self.before = snapshot(st)
+        self.before_d = derived(st)
+        self.before_q = quick_print(st)
         try:
             for mode in ('ignore', 'error'):
                 with warnings.catch_warnings():
@@ -259,8 +293,10 @@ class Adversary:
         can, verify = OPS[name]
         ctx = self.ctx
         ctx.count('requests')
-        before = snapshot(st)
-        before_d = derived(st)
+        if label.startswith('cards_deck_plus_reserve'):
+            ctx.count('requests_naming_reserve_cards_on_a_short_deck')
+        before = self.before
+        before_d = self.before_d
 
         def unchanged(what):
             after = snapshot(st)
@@ -279,7 +315,8 @@ class Adversary:
                             f'{type(e).__name__}: {e}', op=name, exc=type(e).__name__)
         if q is not True and q is not False:
             raise Violation('C08.query_type', f'{can}{args} returned {q!r}, not a bool', op=name)
-        unchanged('query')
+        if quick_print(st) != self.before_q:
+            unchanged('query')          # names the query; subtler changes are found by the full comparison after the verifier
         self.rekey('v')
         try:
             getattr(st, verify)(*args)
@@ -292,7 +329,7 @@ class Adversary:
             raise Violation('C08.verify_exc', f'{verify}{args} [{label}, warnings={mode}, phase={phase}] raised '
                             f'{type(e).__name__}: {e} (only ValueError/UserWarning are refusals)', op=name,
                             exc=type(e).__name__)
-        unchanged('verifier')
+        unchanged('query/verifier')
         if q != v:
             raise Violation('C08.disagree', f'{can}{args} says {q} but {verify} {"passes" if v else "refuses"} '
                             f'[{label}, warnings={mode}, phase={phase}]', op=name)
@@ -364,10 +401,18 @@ class Adversary:
 
 
 def run(ch, ctx):
-    cfg = gen_config(ch, BIAS)
+    bias = dict(BIAS)
+    exhaust = ch.chance('c08.exhaust', 1, 8)
+    if exhaust:
+        # tables whose demand exceeds the deck (as in C06): the reserve becomes dealable, the place where the answer of a
+        # query could depend on how the replenished deck happens to be shuffled
+        from .c06 import EXHAUST
+        # (royal hold'em is left out: 7-8 handed its 20-card deck physically cannot serve the hand - capacity rule of C06)
+        bias.update(variants=tuple(v for v in EXHAUST if v != 'NR'), min_players=6, max_players=8, sbcs=(1,))
+    cfg = gen_config(ch, bias)
     world = None
     try:
-        world = World(ch, ctx, cfg, [], run_key=run_key_of(ch))
+        world = World(ch, ctx, cfg, [], run_key=run_key_of(ch), profile='passive' if exhaust else None)
         adv = Adversary(world, ctx)
         st = world.state
         last_phase = None
@@ -377,7 +422,14 @@ def run(ch, ctx):
                 raise Stuck('tick cap exceeded')
             phase = world.enabled_phase()
             num = PHASE_WEIGHT.get(phase, 1) * (2 if phase != last_phase else 1)   # biased to ticks right after a phase change
-            if attacks < 8 and ch.chance('adv.attack', num, 24):
+            need = (st.board_dealing_count or 0) if phase == 'board' else (
+                len(st.hole_dealing_statuses[st.hole_dealee_index]) if phase == 'hole' and st.hole_dealee_index is not None else 0)
+            if need > len(st.deck_cards):
+                num = 24                    # the deck cannot cover the deal that is due: always look (reserve cards become dealable)
+                ctx.count('attacks_on_a_short_deck')
+            if cfg.get('forced_allin'):
+                num = min(16, num * 3)      # short hands with unusual phase sequences: look at most of their states
+            if attacks < (8 if num < 24 else 10) and ch.chance('adv.attack', num, 24):
                 adv.attack()
                 attacks += 1
             last_phase = phase
@@ -393,6 +445,7 @@ def run(ch, ctx):
             ctx.notes['config'] = cfg
         raise
     ctx.count('attacked_states', attacks)
+    ctx.count('forced_allin_tables', bool(cfg.get('forced_allin')))
     std_finish(world, ctx, attacks > 0)
     ctx.shape.append(sorted(adv.classes))
     ctx.count('request_classes_in_run', len(adv.classes))
